@@ -8,8 +8,11 @@ RULE = ("scenarios from the grammar in harness/scen.py, every strategy, real Sce
         "world state before/after the strategy step and after battery losses plus every Battery.load/unload; "
         "non-trivial = the run reported at least one step; distinct = distinct (seed, index, strategy)")
 ASSUMPTIONS = ["energy identity tolerance 1e-7 relative / 1e-9 absolute in SoC units (float rounding of the closed form)",
-               "a step in which one battery is both charged and discharged is judged on the recorded operations"]
-UNPROVED = ["energy bookkeeping of the look-ahead strategies is decided by the trace oracle, not by a theorem"]
+               "a step in which one battery is both charged and discharged (or probed and restored) is judged on the chain "
+               "of recorded operations that leads from the SoC before to the SoC after the step",
+               "every run also carries the step-level tie of its strategy: the world before each strategy step is rendered for the Lean model of that strategy class, and commands, connector loads, station powers and SoCs after the real step are compared bit for bit"]
+UNPROVED = ["energy bookkeeping is a theorem for schedule-individual, peak_shaving (booking) and flex_window (station entries); "
+            "for the other strategies it is decided by the operation-chain oracle on real runs"]
 
 
 def compare(case, impl, model):
